@@ -200,6 +200,9 @@ func (ex *Exec) callModular(fi *FuncInfo, recv *Value, args []Value, st *State, 
 		bind[e.Name] = ex.evalClauseIn(e, pre, pre, bind)
 	}
 	for i, c := range con.Requires {
+		if c.LockInv {
+			continue
+		}
 		g := ex.evalClause(c, st, pre, bind)
 		ex.check(st, g, "requires", call, fmt.Sprintf("call:%s/requires#%d", site, i))
 	}
@@ -245,6 +248,9 @@ func (ex *Exec) callModular(fi *FuncInfo, recv *Value, args []Value, st *State, 
 	ex.bindResults(fi, bind, res)
 	ex.assuming++
 	for _, c := range con.Ensures {
+		if c.LockInv {
+			continue
+		}
 		st.assume(ex.evalClause(c, st, pre, bind))
 	}
 	ex.assuming--
@@ -386,7 +392,11 @@ func (ex *Exec) modLoc(e ast.Expr, st *State) []modLoc {
 	case *ast.Ident:
 		if v, ok := info.Uses[x].(*types.Var); ok {
 			if isPkgLevel(v) {
-				return []modLoc{{kind: "global", t: v.Type(), name: v.Pkg().Path() + "." + v.Name()}}
+				out := []modLoc{{kind: "global", t: v.Type(), name: v.Pkg().Path() + "." + v.Name()}}
+				if _, ok := v.Type().Underlying().(*types.Map); ok {
+					out = append(out, modLoc{kind: "map", t: v.Type()})
+				}
+				return out
 			}
 			if _, ok := v.Type().Underlying().(*types.Map); ok {
 				return []modLoc{{kind: "map", t: v.Type()}}
